@@ -217,6 +217,8 @@ pub struct SimInput<'a> {
     pub alloc_calls: u32,
     /// A read was refused (EOF or error): the injected fault actually fired.
     pub refused: bool,
+    /// `remaining_len` answered `Err` (RlMode::Err) at least once: the input itself reported a failure.
+    pub rl_err_returned: bool,
     pub log: Log,
 }
 
@@ -232,6 +234,7 @@ impl<'a> SimInput<'a> {
             max_depth: 0,
             alloc_calls: 0,
             refused: false,
+            rl_err_returned: false,
             log: Log::new(record),
         };
         if let Some(plan) = b.mode.io.clone() {
@@ -284,7 +287,10 @@ impl<'a> Input for SimInput<'a> {
         match self.mode.rl {
             RlMode::None => Ok(None),
             RlMode::Exact => Ok(Some(d)),
-            RlMode::Err => Err("sim: remaining_len unavailable".into()),
+            RlMode::Err => {
+                self.rl_err_returned = true;
+                Err("sim: remaining_len unavailable".into())
+            }
         }
     }
 
